@@ -15,7 +15,6 @@ Section P2.
   Hypothesis Rth : ring_theory r0 r1 radd rmul rsub ropp (@eq R).
   Add Ring Rr2 : Rth.
   Variable reqb : R -> R -> bool.
-  Variable rtrunc : R -> R.
   Hypothesis reqb_sound : forall x y, reqb x y = true -> x = y.
 
   Local Notation mat := (list (list R)).
@@ -30,8 +29,8 @@ Section P2.
   Local Notation LinPart := (lin_part R).
   Local Notation TransPart := (trans_part R r0).
   Local Notation SamplePoint := (sample_point R r0 radd rmul).
-  Local Notation MappingMatrix := (mapping_matrix R r0 r1 rtrunc).
-  Local Notation ResampleAffine := (resample_affine R r0 r1 radd rmul reqb rtrunc).
+  Local Notation MappingMatrix := (mapping_matrix R r0 r1).
+  Local Notation ResampleAffine := (resample_affine R r0 r1 radd rmul reqb).
 
   Let HMM := happly_mm R r0 r1 radd rmul rsub ropp Rth.
   Let MMWF := mm_wf_aff R r0 r1 radd rmul rsub ropp Rth.
@@ -73,7 +72,7 @@ Section P2.
                 (SamplePoint A b v).
   Proof.
     intros E Hnt HG HT HSi Hinv Hv.
-    destruct (resample_affine_point R r0 r1 radd rmul rsub ropp Rth reqb rtrunc
+    destruct (resample_affine_point R r0 r1 radd rmul rsub ropp Rth reqb
                 icm target m Sinv out A b nt nw ns v E Hnt HG HT HSi Hv) as [Eo Ep].
     split; [exact Eo|]. rewrite Ep.
     apply preimage_by_inverse; try assumption.
@@ -82,7 +81,7 @@ Section P2.
 
   Lemma resample_img2img_samples (scm tcm : aff) (Sinv : mat)
         (out : aff) (A : mat) (b : vec) nt nw (v : vec) :
-    resample_img2img R r0 r1 radd rmul reqb rtrunc scm tcm Sinv = Ok (out, (A, b)) ->
+    resample_img2img R r0 r1 radd rmul reqb scm tcm Sinv = Ok (out, (A, b)) ->
     cs_ndim (adom tcm) = nt -> cs_ndim (arng scm) = nw ->
     WfAff nw nt (amat tcm) ->
     WfAff nw nw Sinv ->
@@ -242,57 +241,79 @@ Section P2.
     - split; [now apply (MMWF 3 3 3)|]. now rewrite (HMM 3 3 3).
   Qed.
 
-  (* non-diagonal branch: offset = Ainv (A b) = b, so the sampled point is Sinv (G v) *)
-  Lemma avi_nondiag_samples (S G Sinv Ainv : mat) (v : vec) :
-    WfAff 3 3 S -> WfAff 3 3 G -> WfAff 3 3 Sinv -> inv_pair 3 S Sinv -> length v = 3 ->
-    let Tm := avi_transform R r0 r1 radd rmul reqb S G Sinv in
-    is_diag R r0 reqb (LinPart Tm) = false ->
-    (forall y, length y = 3 -> Mv Ainv (Mv (LinPart Tm) y) = y) ->
-    preimage_of 3 S (Happly G v)
-      (avi_sample_point R r0 radd rmul (avi_sampler_args R r0 r1 radd rmul reqb S G Sinv Ainv) v).
+  (* a diagonal 3x3 matrix given as its diagonal acts like the matrix *)
+  Lemma diag3_action (A : mat) (v : vec) :
+    length A = 3 -> rows_len 3 A -> length v = 3 ->
+    is_diag R r0 reqb A = true ->
+    vmul R rmul (diag_of R r0 A) v = Mv A v.
   Proof.
-    intros WS WG WSi Hinv Hv Tm Hd HA.
+    intros HA Hr Hv Hd.
+    destruct A as [|a [|b [|c [|d A]]]]; try discriminate.
+    inversion Hr as [|? ? Ha Hr1]; subst. inversion Hr1 as [|? ? Hb Hr2]; subst.
+    inversion Hr2 as [|? ? Hc Hr3]; subst.
+    destruct a as [|a0 [|a1 [|a2 [|? ?]]]]; try discriminate.
+    destruct b as [|b0 [|b1 [|b2 [|? ?]]]]; try discriminate.
+    destruct c as [|c0 [|c1 [|c2 [|? ?]]]]; try discriminate.
+    destruct v as [|x [|y [|z [|? ?]]]]; try discriminate.
+    cbn in Hd.
+    repeat match goal with
+           | H : _ && _ = true |- _ => apply andb_true_iff in H; destruct H
+           end.
+    repeat match goal with H : reqb _ r0 = true |- _ => apply reqb_sound in H; subst end.
+    cbn. f_equal; [ring|]. f_equal; [ring|]. f_equal; ring.
+  Qed.
+
+  Lemma lin_part_shape (Tm : mat) :
+    WfAff 3 3 Tm -> length (LinPart Tm) = 3 /\ rows_len 3 (LinPart Tm).
+  Proof.
+    intros [top [-> [Ht Hr]]]. unfold lin_part, top_rows. rewrite removelast_last.
+    split; [now rewrite map_length|].
+    unfold rows_len in *. rewrite Forall_forall in *. intros r Hin.
+    apply in_map_iff in Hin. destruct Hin as [row [<- Hrow]].
+    specialize (Hr row Hrow). destruct row as [|x row]; [discriminate|].
+    assert (E : x :: row <> []) by discriminate.
+    pose proof (app_removelast_last r0 E) as EE.
+    assert (L : length (x :: row) = length (removelast (x :: row)) + 1)
+      by (rewrite EE at 1; rewrite app_length; reflexivity).
+    lia.
+  Qed.
+
+  (* both branches (A diagonal handed over as a 1-D matrix, or full A): offset = b,
+     so the sampled point is Sinv (G v) *)
+  Lemma avi_samples (S G Sinv : mat) (v : vec) :
+    WfAff 3 3 S -> WfAff 3 3 G -> WfAff 3 3 Sinv -> inv_pair 3 S Sinv -> length v = 3 ->
+    preimage_of 3 S (Happly G v)
+      (avi_sample_point R r0 radd rmul (avi_sampler_args R r0 r1 radd rmul reqb S G Sinv) v).
+  Proof.
+    intros WS WG WSi Hinv Hv.
     destruct (avi_transform_point S G Sinv v WS WG WSi Hinv Hv) as [WT ET].
-    unfold avi_sampler_args. fold Tm. rewrite Hd. cbn [avi_sample_point fst snd].
-    assert (Lb : length (TransPart Tm) = 3).
-    { destruct WT as [top [E [Ht Hr]]]. fold Tm in E. rewrite E.
-      unfold trans_part, top_rows. rewrite removelast_last, map_length. exact Ht. }
-    rewrite HA by exact Lb.
-    rewrite <- (happly_matvec R r0 r1 radd rmul rsub ropp Rth 3 3 Tm v WT Hv).
-    fold Tm in ET. rewrite ET.
-    apply preimage_by_inverse; try assumption. now apply (HLEN 3 3).
+    unfold avi_sampler_args.
+    set (Tm := avi_transform R r0 r1 radd rmul reqb S G Sinv) in *.
+    destruct (lin_part_shape Tm WT) as [LA RA].
+    assert (P : preimage_of 3 S (Happly G v) (SamplePoint (LinPart Tm) (TransPart Tm) v)).
+    { rewrite <- (happly_matvec R r0 r1 radd rmul rsub ropp Rth 3 3 Tm v WT Hv). rewrite ET.
+      apply preimage_by_inverse; try assumption. now apply (HLEN 3 3). }
+    destruct (is_diag R r0 reqb (LinPart Tm)) eqn:Hd; cbn [avi_sample_point fst snd].
+    - unfold sample_point_diag. rewrite (diag3_action (LinPart Tm) v LA RA Hv Hd). exact P.
+    - exact P.
   Qed.
 
   (* ---------------------------------------------------------------- VolumeImg.xyz_ordered (flip step) *)
   Variable rneg : R -> bool.
 
-  (* axis 0: the datum shown at new index i keeps its world coordinate *)
-  Lemma xyz_flip_axis0_preserves (p b nm1 i : R) :
-    let '(p', b', f) := xyz_flip_axis R r1 radd rmul ropp rneg 0 p b nm1 in
+  (* every axis, flipped or not: the datum shown at new index i keeps its world coordinate *)
+  Lemma xyz_flip_preserves (p b nm1 i : R) :
+    let '(p', b', f) := xyz_flip_axis R radd rmul ropp rneg p b nm1 in
     axis_world R radd rmul p' b' i = axis_world R radd rmul p b (xyz_old_index R rsub f nm1 i).
   Proof.
     unfold xyz_flip_axis, xyz_old_index, axis_world. destruct (rneg p); cbn; ring.
   Qed.
 
-  (* axes 1 and 2: a flipped axis moves every datum by +1 in world space *)
-  Lemma xyz_flip_axis12_shifted (k : nat) (p b nm1 i : R) :
-    k <> 0 -> rneg p = true ->
-    let '(p', b', f) := xyz_flip_axis R r1 radd rmul ropp rneg k p b nm1 in
-    axis_world R radd rmul p' b' i =
-    radd (axis_world R radd rmul p b (xyz_old_index R rsub f nm1 i)) r1.
-  Proof.
-    intros Hk Hn. unfold xyz_flip_axis. rewrite Hn.
-    destruct (Nat.eqb_spec k 0) as [E|E]; [contradiction|].
-    unfold xyz_old_index, axis_world. cbn. ring.
-  Qed.
-
-  Lemma xyz_noflip_preserves (k : nat) (p b nm1 i : R) :
-    rneg p = false ->
-    let '(p', b', f) := xyz_flip_axis R r1 radd rmul ropp rneg k p b nm1 in
-    axis_world R radd rmul p' b' i = axis_world R radd rmul p b (xyz_old_index R rsub f nm1 i).
-  Proof.
-    intros Hn. unfold xyz_flip_axis. rewrite Hn. reflexivity.
-  Qed.
+  (* and the new pixdim is the negated one exactly when the axis was reversed *)
+  Lemma xyz_flip_pixdim (p b nm1 : R) :
+    let '(p', b', f) := xyz_flip_axis R radd rmul ropp rneg p b nm1 in
+    f = rneg p /\ p' = (if f then ropp p else p).
+  Proof. unfold xyz_flip_axis. destruct (rneg p); cbn; auto. Qed.
 
   (* ---------------------------------------------------------------- interpolation oracle contract *)
   Section Oracle.
